@@ -1,3 +1,5 @@
+import Secp.Proofs.DriversFront
+import Secp.Gen.Drivers
 import Secp.Proofs.Ecdh
 import Secp.Props.C03
 import Secp.Proofs.Slices
@@ -45,5 +47,20 @@ theorem ecdh_spec_unconditional (a b : Nat) (ha0 : 0 < a) (ha : a < N) (hb0 : 0 
     `contracts_justified`) this is what makes the value-level model above faithful to the limb code. -/
 theorem ecdh_field_arithmetic_exact :
     Secp.Proofs.Slices.entriesOK ["github.com/ModChain/secp256k1.GenerateSharedSecret", "github.com/ModChain/secp256k1.PrivateKey.ECDH", "github.com/ModChain/secp256k1.PublicKey.AsJacobian"] = true := by decide +kernel
+
+/-! ### Regenerated drivers (tools/gotr pass T8)
+
+`Secp.Gen.Drivers` is REGENERATED from /repo on every check run: the Go functions below translated
+statement by statement into Lean terms over the value-level primitives.  The theorems say the
+regenerated definitions EQUAL the hand-written models the theorems above are about. -/
+
+/-- `GenerateSharedSecret` regenerated = `ecdhM` (the two are the same term once the generated field writes are reduced) -/
+theorem generateSharedSecret_regenerated (d : Nat) (Q : Nat × Nat) :
+    Secp.Gen.Drivers.generateSharedSecret d Q = ecdhM d Q := rfl
+
+/-- `PrivateKey.ECDH` = `GenerateSharedSecret`, never an error -/
+theorem ecdh_front (d : Nat) (Q : Nat × Nat) :
+    Secp.Gen.Drivers.ecdhMethod d Q = DR.ok (Secp.Gen.Drivers.generateSharedSecret d Q) :=
+  Secp.Proofs.DriversFront.ecdh_front d Q
 
 end Secp.Props.C14
